@@ -204,8 +204,8 @@ func (st *State) site(fr *Frame) string {
 }
 
 func shortPath(p string) string {
-	if i := strings.Index(p, "/repo/"); i >= 0 {
-		return p[i+6:]
+	if strings.HasPrefix(p, repoRoot+"/") {
+		return p[len(repoRoot)+1:]
 	}
 	if i := strings.LastIndex(p, "/pkg/mod/"); i >= 0 {
 		return p[i+9:]
